@@ -401,14 +401,16 @@ Definition ok_sx (c o : sx) : Z :=
   | L [A 0; L rs; L feats] =>
       match mapO dec_grule rs with
       | Some grs =>
+          (* a rule without a name is not a text of the grammar (such cases only arise when a failing case is being shrunk) *)
+          if existsb (fun r => match g_name r with [] => true | _ => false end) grs then -1 else
           match mapO exp_rule grs with
           | Some es => if sx_eqb o (L [A 0; L es]) then 1
                        else if existsb has_method grs
                                && match mapO exp_rule (map demethod_rule grs) with Some es' => sx_eqb o (L [A 0; L es']) | None => false end
                             then 5
                             else file_class grs (flat_map descr_of rs) feats
-          | None => 0 end
-      | None => 0 end
+          | None => -1 end
+      | None => -1 end
   | L [A 1; _; g] => match dec_gcond g with
                      | Some g => match compile_cond (strip g) with
                                  | Some cg => if sx_eqb o (L [A 1; enc_group cg]) then 1 else 0
